@@ -232,7 +232,7 @@ func panicMatches(msg, native string) bool {
 // confirm replays the violation natively. Returns (confirmed, observable, detail).
 func (nb *nativeBuilder) confirm(rf *ReplayFile, path string) (bool, bool, string) {
 	switch rf.Kind {
-	case "oob", "uaf", "ownership":
+	case "oob", "uaf", "ownership", "race":
 		return false, false, "ghost-state violation (not observable by a native run)"
 	}
 	var last string
@@ -534,7 +534,7 @@ func finishRun(prop, tier string, seed int64, specs []*HarnessSpec, units []unit
 			"go/ssa construction and the executor's instruction semantics",
 			"stubs: mcache/dirtmake allocators, sync.Pool, maphash as uninterpreted function, fmt as opaque strings",
 			"objects live at fixed concrete addresses (address-dependent wrap-around is outside the claim unless sym_addr is set)",
-			"allocation sizes taken from the input are assumed <= 65536 where the code allocates them",
+			"allocation sizes taken from the input are assumed <= 2^24 where the code allocates them",
 		},
 		"wall_s":     time.Since(t0).Seconds(),
 		"violations": nviol,
